@@ -6,7 +6,7 @@ from __future__ import annotations
 import ast
 import re
 
-from ..astutil import call_attr, calls_in, guard_facts, unparse, walk_local, text_facts
+from ..astutil import call_attr, call_name, calls_in, guard_facts, unparse, walk_local, text_facts
 from ..cfg import CFG
 from ..report import Finding, Report
 from ..srcindex import AnalysisError, Index, raw_funcs
@@ -399,11 +399,48 @@ def check_notify_and_entry(idx: Index, rep: Report) -> None:
         r.fail(f.fq + ":changed", Finding("C13.R4", f.fq, "change-unreported", "deletions must raise `changed` so that region_dce reports the modification", f.loc))
 
 
+def check_recursive_effects(idx: Index, rep: Report) -> None:
+    """The effects of an op with RecursiveMemoryEffect are those of ALL nested operations (terminators included:
+    scf.reduce is a terminator that holds effectful regions): no nested op may be skipped, an unknown nested effect
+    makes the whole unknown."""
+    r = rep.rule("C13.R5", "RecursiveMemoryEffect.get_effects collects get_effects of every nested operation (no filter / early continue) and propagates an unknown (None) effect", floor=1)
+    f = idx.func("xdsl/traits.py", "RecursiveMemoryEffect.get_effects")
+    cfg = CFG(f.node)
+    inner = [w for w in walk_local(f.node) if isinstance(w, ast.For) and re.search(r"\.ops\b|\.walk\(", unparse(w.iter))]
+    if not inner:
+        raise AnalysisError(f"{f.fq}: loop over the nested operations not found")
+    for w in inner:
+        var = unparse(w.target)
+        calls = {cfg.node_of(c) for c in calls_in(w) if call_name(c) == "get_effects" and c.args and unparse(c.args[0]) == var}
+        head = cfg.node_of(w)
+        inst = f"{f.fq}:{unparse(w.iter)[:30]}"
+        if not calls:
+            raise AnalysisError(f"{f.fq}: get_effects({var}) not found in the loop over nested operations")
+        skip = None
+        for m, lab in cfg.succ[head]:
+            if lab == "T" and m not in calls:
+                pth = cfg.path_avoiding(m, head, lambda n: n.id in calls, follow_exc=False)
+                if pth is not None:
+                    skip = pth
+        if skip is not None:
+            r.fail(inst, Finding("C13.R5", f.fq, "nested-op-skipped", "an iteration over the nested operations returns to the loop head without get_effects(" + var + "): " + " -> ".join(cfg.describe(skip)[-3:]) + " — the effects of the skipped operations (e.g. a store inside the regions of an scf.reduce terminator) are invisible, the enclosing op is reported side-effect free and is erased when its results are unused", f"{f.module.relpath}:{w.lineno}"))
+        else:
+            r.ok(inst, f"{f.loc} every nested op contributes its effects")
+        # unknown effects propagate
+        nones = [rt for rt in walk_local(w) if isinstance(rt, ast.Return) and (rt.value is None or (isinstance(rt.value, ast.Constant) and rt.value.value is None))]
+        okn = any(any(re.fullmatch(r"\w+ is None", t_) and p_ for t_, p_ in text_facts(f.node, rt)) for rt in nones)
+        if okn:
+            r.ok(inst + ":unknown", None)
+        else:
+            r.fail(inst + ":unknown", Finding("C13.R5", f.fq, "unknown-effect-dropped", "an unknown (None) effect set of a nested operation no longer makes the result None: the enclosing operation is treated as if the nested one had no effect", f.loc))
+
+
 def check(idx: Index, rep: Report, tier: str) -> str:
     rep.run(check_predicate, idx, rep)
     rep.run(check_erase_sites, idx, rep)
     rep.run(check_liveness, idx, rep)
     rep.run(check_notify_and_entry, idx, rep)
+    rep.run(check_recursive_effects, idx, rep)
     return (
         "Required-conjunct extraction over the removability predicate (closed over its helpers in "
         "dead_code_elimination.py and traits.get_effects), guarded-action check of every erase site of the dce "
